@@ -4,21 +4,9 @@
 From PV Require Import Base.Prelude Model.DHCP Spec.DHCP Spec.DHCPCheck Proofs.DHCP Proofs.DHCPRefuted.
 Open Scope N_scope.
 
-(* UNCHANGED CODE: the C12 statements are false of the faithful model (witness
-   histories of corpus/C12/witnesses.txt, replayed on the real code). *)
-Theorem C12_reply_subnet_refuted : exists c h t m r,
-  In t (trace c (init c) h) /\ op_msg (t_op t) = Some m /\ t_reply t = Some r /\
-  r_type r = RAck /\ c12_subnet c (t_pre t) m r = false.
-Proof. exact reply_subnet_refuted. Qed.
-Print Assumptions C12_reply_subnet_refuted.
-
-Theorem C12_ack_matches_refuted : exists c h t m r,
-  In t (trace c (init c) h) /\ op_msg (t_op t) = Some m /\ t_reply t = Some r /\
-  r_type r = RAck /\ c12_ack_matches (t_pre t) m r = false /\
-  cannot_honour c (t_pre t) m = true.
-Proof. exact ack_matches_refuted. Qed.
-Print Assumptions C12_ack_matches_refuted.
-
+(* Still false of the faithful model (finding c12-prl-router-before-mask, DESIGN #18,
+   layer_dhcp4.go AppendOptions): the router option precedes the subnet mask when the
+   client's parameter request list says so. *)
 Theorem C12_mask_first_refuted : exists c h t r,
   In t (trace c (init c) h) /\ t_reply t = Some r /\ r_type r = ROffer /\ c12_mask_first r = false.
 Proof. exact mask_first_refuted. Qed.
